@@ -12,7 +12,7 @@ declared, mechanical transformations applied:
   sig: ...       replace the signature (needed for regions, which are lifted into functions)
   spec:          contract clauses spliced between signature and body
   loop k:        loop invariants / decreases spliced before the body of the k-th loop
-  before/after k `prefix`:   proof hint spliced before/after the k-th statement starting with
+  before/after k `prefix`:   (k = `*`: every such statement) proof hint spliced before/after the k-th statement starting with
                  the given token prefix (statement position only — never keyed on operators
                  or constants inside an expression)
 
@@ -254,7 +254,7 @@ def _apply_unit(repo: str, header: str, body_lines: List[str], tpl_name: str) ->
                 sections.append(cur)
             elif d.startswith("before") or d.startswith("after"):
                 # `before K `prefix` [in L]:` -- the K-th statement starting with prefix (inside the body of loop L, if given)
-                m = re.match(r"(before|after)\s+(\d+)\s+`([^`]*)`(?:\s+in\s+(\d+))?\s*:?", d)
+                m = re.match(r"(before|after)\s+(\d+|\*)\s+`([^`]*)`(?:\s+in\s+(\d+))?\s*:?", d)
                 if not m:
                     raise ExtractError("bad hint anchor in %s/%s: %s" % (tpl_name, uid, d))
                 cur = (m.group(1), m.group(2) + "\x00" + m.group(3) + "\x00" + (m.group(4) or ""), [])
@@ -467,7 +467,8 @@ def _apply_unit(repo: str, header: str, body_lines: List[str], tpl_name: str) ->
             inserts.append((toks_b[ci].end, "\n" + txt + "\n"))
         elif kind in ("before", "after"):
             k_s, pref, in_loop = (arg.split("\x00") + [""])[:3]
-            k = int(k_s)
+            # `*` = every statement starting with the prefix (none is fine): a hint wanted at every exit of one shape
+            k = 0 if k_s == "*" else int(k_s)
             starts = rt.statement_starts(body, pref)
             if in_loop:
                 heads = rt.loop_headers(body)
@@ -480,10 +481,10 @@ def _apply_unit(repo: str, header: str, body_lines: List[str], tpl_name: str) ->
                 starts = [x for x in starts if lo <= x < hi]
             if len(starts) < k:
                 raise ExtractError("%s: hint anchor `%s` #%d not found in %s" % (uid, pref, k, info.item))
-            off = starts[k - 1]
-            if kind == "after":
-                off = _stmt_end(body, off)
-            inserts.append((off, "\n" + txt + "\n"))
+            for off in (starts if k == 0 else [starts[k - 1]]):
+                if kind == "after":
+                    off = _stmt_end(body, off)
+                inserts.append((off, "\n" + txt + "\n"))
     for off, txt in sorted(inserts, key=lambda x: -x[0]):
         body = body[:off] + txt + body[off:]
     spec = "\n".join("\n".join(l) for k, a, l in sections if k == "spec")
